@@ -32,8 +32,17 @@ type History struct {
 	PolA   string  `json:"setfinal_policy_a"`
 	PolB   string  `json:"setfinal_policy_b"`
 	Blocks []Block `json:"blocks"`
-	OpsA   []Op    `json:"ops_a"`
-	OpsB   []Op    `json:"ops_b"`
+	// Old lists re-executions of an OLDER block after later blocks; both instances perform them at the
+	// same place of the block sequence (everything else stays independent)
+	Old  []OldRe `json:"old_block_reexecutions,omitempty"`
+	OpsA []Op    `json:"ops_a"`
+	OpsB []Op    `json:"ops_b"`
+}
+
+// OldRe says: after block After has been offered, offer block Block (< After) once more.
+type OldRe struct {
+	After int `json:"after"`
+	Block int `json:"block"`
 }
 
 // ordinary keys: small alphabet with aliases under path normalisation ("a", "/a", "x/../a" are the
@@ -46,9 +55,11 @@ var ordinaryKeys = []string{
 // keys that normalise to the datastore key SetFinal uses; only generated in region "fhtx".
 var fhKeys = []string{"finalizedHeight", "/finalizedHeight", "x/../finalizedHeight", "finalizedHeight/", "//finalizedHeight"}
 
-// transactions the documented format refuses: no '=', empty key, reserved genesis key.
+// transactions today's executor refuses: no '=', empty key (the documented format excludes these), blank key,
+// reserved genesis key under several spellings (left to the implementation, which is held to one verdict each).
 var badTxs = []string{
 	"novalue", "", "=v", "=", "genesis/initialized=1", "/genesis/stateroot=x", "a/../genesis/initialized=true", "genesis/stateroot/=r",
+	" =v", "\t=",
 }
 
 type gen struct {
@@ -253,6 +264,15 @@ func (g *gen) ops(h *History, policy string) []Op {
 		if b.Kind == "fhtx" {
 			final(i, true)
 		}
+		for _, o := range h.Old {
+			if o.After == i {
+				if rng.Intn(2) == 0 {
+					aux(1)
+				}
+				// always followed by a look at the root: it tells what the re-execution did
+				ops = append(ops, Op{K: "reexec", B: o.Block}, Op{K: "observe"})
+			}
+		}
 	}
 	if initAt == n {
 		ops = append(ops, Op{K: "init"})
@@ -284,6 +304,21 @@ func (g *gen) history(id int, quick bool) History {
 	for i := 0; i < n; i++ {
 		h.Blocks = append(h.Blocks, g.block(h.Region))
 	}
+	if rng.Intn(6) == 0 {
+		// an older block is offered again after later blocks (one or two places)
+		for k := 1 + rng.Intn(2); k > 0; k-- {
+			after := 1 + rng.Intn(n-1)
+			var cand []int
+			for j := 0; j < after; j++ {
+				if h.Blocks[j].Kind == "ok" && len(h.Blocks[j].Txs) <= 8 {
+					cand = append(cand, j)
+				}
+			}
+			if len(cand) > 0 && h.Blocks[after].Kind != "malformed" {
+				h.Old = append(h.Old, OldRe{After: after, Block: cand[rng.Intn(len(cand))]})
+			}
+		}
+	}
 	h.PolA, h.PolB = "never", "never"
 	if h.Region != "clean" {
 		// different finalization timing on the two instances; in region fhtx one history in three
@@ -306,6 +341,9 @@ func (h History) abstract() string {
 	sb.WriteString(h.Region)
 	if h.Child {
 		sb.WriteString("/child")
+	}
+	for _, o := range h.Old {
+		fmt.Fprintf(&sb, "/old%d-%d", o.After, o.Block)
 	}
 	sb.WriteString("|")
 	for _, b := range h.Blocks {
@@ -373,7 +411,7 @@ func (h History) sample() any {
 	}
 	return map[string]any{
 		"id": h.ID, "region": h.Region, "reopen_by_child_process": h.Child,
-		"setfinal_policy": h.PolA + "/" + h.PolB,
-		"blocks":          bl, "calls_a": opsString(h.OpsA), "calls_b": opsString(h.OpsB),
+		"setfinal_policy": h.PolA + "/" + h.PolB, "old_block_reexecutions": h.Old,
+		"blocks": bl, "calls_a": opsString(h.OpsA), "calls_b": opsString(h.OpsB),
 	}
 }
